@@ -121,7 +121,8 @@ theorem compileStmts_ok (y : Syms) (l : List Stmt) (h : allResolve y l = true) :
 
 theorem compileStmts_rejected_first (y : Syms) (s : Stmt) (rest : List Stmt)
     (h : s.resolves y = false) :
-    compileStmts y (s :: rest) = ⟨List.replicate s.pre (.push 0), y, [], .rejected s.inFn⟩ := by
+    compileStmts y (s :: rest) =
+      ⟨List.replicate s.pre (.push 0) ++ (if s.junk then [.push 0, .pop] else []), y, [], .rejected s.inFn⟩ := by
   simp [compileStmts, h]
 
 theorem add_nodecl (y : Syms) (s : Stmt) (h : (s.vdecl.isEmpty && s.cdecl.isEmpty) = true) :
@@ -343,9 +344,9 @@ theorem feed_step (r : Repl) (st : SpecSt) (g : GSt) (p : Piece) (inv : Inv r st
       | cons s rest =>
         simp only [pieceGuard, hres', Bool.false_eq_true, ↓reduceIte, Bool.and_eq_true,
           Bool.not_eq_true', beq_iff_eq] at hg
-        obtain ⟨⟨hs, hpre⟩, hfn⟩ := hg
+        obtain ⟨⟨⟨hs, hpre⟩, hfn⟩, hjunk⟩ := hg
         have hc := compileStmts_rejected_first r.comp.syms s rest (by rw [inv.syms, ← inv.gsyms]; exact hs)
-        simp only [Repl.feed, hc, hpre, hfn, List.replicate_zero, List.append_nil, inv.stuck,
+        simp only [Repl.feed, hc, hpre, hfn, hjunk, List.replicate_zero, List.append_nil, inv.stuck,
           Bool.false_eq_true, ↓reduceIte, SpecSt.feed, hresf, GSt.next, hres']
         exact ⟨trivial, ⟨inv.syms, inv.gsyms, inv.trace, inv.ip, by simp, inv.ht, inv.old, inv.fns⟩⟩
 
@@ -490,5 +491,278 @@ theorem repl_run_defined_mono (h : List Piece) : ∀ (r : Repl) (n : Nat),
     intro r n hd
     simp only [Repl.run]
     exact ih _ _ (repl_feed_defined_mono r p n hd)
+
+/-! ## Layer 3: compile-only marks -/
+
+/-- the marks a piece's compilation sets -/
+def marksOf : List CEv → List Mark
+  | [] => []
+  | .enter m :: rest => m :: marksOf rest
+  | _ :: rest => marksOf rest
+
+theorem compileEvs_own_nil (inh : List Mark) (evs : List CEv) :
+    ∀ own, balancedFrom own.length evs = true → errClean own evs = true →
+      (compileEvs inh own evs).own = [] := by
+  induction evs with
+  | nil =>
+    intro own hb _
+    simp only [balancedFrom, beq_iff_eq] at hb
+    simp only [compileEvs]
+    exact List.eq_nil_of_length_eq_zero hb
+  | cons ev rest ih =>
+    intro own hb hc
+    cases ev with
+    | enter m =>
+      simp only [compileEvs]
+      exact ih (m :: own) (by simpa [balancedFrom] using hb) (by simpa [errClean] using hc)
+    | leave =>
+      simp only [compileEvs]
+      simp only [balancedFrom, Bool.and_eq_true, decide_eq_true_eq] at hb
+      apply ih own.tail
+      · rw [List.length_tail]; exact hb.2
+      · simpa [errClean] using hc
+    | emit k sens =>
+      simp only [compileEvs]
+      exact ih own (by simpa [balancedFrom] using hb) (by simpa [errClean] using hc)
+    | err =>
+      simp only [compileEvs]
+      simp only [errClean, List.all_eq_true] at hc
+      rw [List.filter_eq_nil_iff]
+      intro m hm
+      simp [hc m hm]
+
+theorem errClean_of_restored (evs : List CEv) :
+    ∀ own, (∀ m ∈ own, m.restored = true) → (∀ m ∈ marksOf evs, m.restored = true) → errClean own evs = true := by
+  induction evs with
+  | nil => intro _ _ _; rfl
+  | cons ev rest ih =>
+    intro own ho hm
+    cases ev with
+    | enter m =>
+      simp only [errClean]
+      apply ih
+      · intro x hx
+        rcases List.mem_cons.1 hx with h | h
+        · subst h; exact hm _ (by simp [marksOf])
+        · exact ho x h
+      · intro x hx; exact hm x (by simp [marksOf, hx])
+    | leave =>
+      simp only [errClean]
+      exact ih _ (fun x hx => ho x (List.mem_of_mem_tail hx)) (fun x hx => hm x (by simpa [marksOf] using hx))
+    | emit k sens =>
+      simp only [errClean]
+      exact ih _ ho (fun x hx => hm x (by simpa [marksOf] using hx))
+    | err =>
+      simp only [errClean, List.all_eq_true]
+      exact ho
+
+/-! ## Layer 4: generations -/
+
+/-- the Impl's generations agree with the Spec's single array wherever the bookkeeping says "valid" -/
+def Agree (V : Valid) (G S : Gens) : Prop := ∀ g k, V g k = true → G k g = S 0 g
+
+theorem FExpr.eval_agree (V : Valid) (G S : Gens) (k : Nat) (a : Int) (h : Agree V G S) (e : FExpr)
+    (hr : e.reads.all (fun x => V x k) = true) : e.eval (G k) a = e.eval (S 0) a := by
+  induction e with
+  | lit v => rfl
+  | glob g =>
+    simp only [FExpr.reads, List.all_cons, List.all_nil, Bool.and_true] at hr
+    exact h g k hr
+  | arg => rfl
+  | add x y ihx ihy =>
+    simp only [FExpr.reads, List.all_append, Bool.and_eq_true] at hr
+    simp only [FExpr.eval, ihx hr.1, ihy hr.2]
+
+theorem agree_write (V : Valid) (G S : Gens) (g k : Nat) (v : Int) (h : Agree V G S) :
+    Agree (V.write g k) (G.put k g v) (S.put 0 g v) := by
+  intro g' k' hv
+  simp only [Valid.write] at hv
+  simp only [Gens.put]
+  by_cases hg : g' = g
+  · subst hg
+    simp only [↓reduceIte, beq_iff_eq] at hv
+    subst hv
+    simp
+  · simp only [hg, ↓reduceIte] at hv
+    simp only [hg, and_false, ↓reduceIte]
+    exact h g' k' hv
+
+theorem runBody_agree (k : Nat) (a : Int) (body : List (Nat × FExpr)) :
+    ∀ (V V' : Valid) (G S : Gens), Agree V G S → okBody k body V = some V' →
+      Agree V' (runBody k a body G) (runBody 0 a body S) := by
+  induction body with
+  | nil =>
+    intro V V' G S h hk
+    simp only [okBody, Option.some.injEq] at hk
+    subst hk
+    exact h
+  | cons ge rest ih =>
+    intro V V' G S h hk
+    obtain ⟨g, e⟩ := ge
+    simp only [okBody] at hk
+    split at hk
+    · rename_i hr
+      simp only [runBody]
+      rw [FExpr.eval_agree V G S k a h e hr]
+      exact ih _ _ _ _ (agree_write V G S g k _ h) hk
+    · cases hk
+
+theorem TExpr.eval_agree (E : BEnv) (e : TExpr) :
+    ∀ (V V' : Valid) (G S : Gens), Agree V G S → e.ok E V = some V' →
+      (e.eval E G).1 = (e.eval (specEnv E.defs) S).1 ∧ Agree V' (e.eval E G).2 (e.eval (specEnv E.defs) S).2 := by
+  induction e with
+  | lit v =>
+    intro V V' G S h hk
+    simp only [TExpr.ok, Option.some.injEq] at hk
+    subst hk
+    exact ⟨rfl, h⟩
+  | glob g =>
+    intro V V' G S h hk
+    simp only [TExpr.ok] at hk
+    split at hk
+    · rename_i hv
+      simp only [Option.some.injEq] at hk
+      subst hk
+      exact ⟨h g E.cur hv, h⟩
+    · cases hk
+  | add a b iha ihb =>
+    intro V V' G S h hk
+    simp only [TExpr.ok] at hk
+    cases ha : a.ok E V with
+    | none => simp [ha] at hk
+    | some V1 =>
+      simp only [ha, Option.bind_some] at hk
+      obtain ⟨e1, h1⟩ := iha V V1 G S h ha
+      obtain ⟨e2, h2⟩ := ihb V1 V' _ _ h1 hk
+      simp only [TExpr.eval]
+      exact ⟨by rw [e1, e2], h2⟩
+  | call f a iha =>
+    intro V V' G S h hk
+    simp only [TExpr.ok] at hk
+    cases ha : a.ok E V with
+    | none => simp [ha] at hk
+    | some V1 =>
+      simp only [ha, Option.bind_some] at hk
+      obtain ⟨e1, h1⟩ := iha V V1 G S h ha
+      simp only [TExpr.eval, specEnv]
+      cases hd : E.defs f with
+      | none =>
+        simp only [hd] at hk
+        simp only [Option.some.injEq] at hk
+        subst hk
+        simp only []
+        exact ⟨trivial, h1⟩
+      | some d =>
+        cases hb : E.bind f with
+        | none => simp [hd, hb] at hk
+        | some k =>
+          simp only [hd, hb] at hk
+          cases hbody : okBody k d.body V1 with
+          | none => simp [hbody] at hk
+          | some V2 =>
+            simp only [hbody, Option.bind_some] at hk
+            split at hk
+            · rename_i hret
+              simp only [Option.some.injEq] at hk
+              subst hk
+              simp only [Option.map_some]
+              have hx : (a.eval E G).1 = (a.eval (specEnv E.defs) S).1 := e1
+              simp only [specEnv] at hx h1
+              rw [hx]
+              have h2 := runBody_agree k (a.eval ⟨0, E.defs, fun f => (E.defs f).map fun _ => 0⟩ S).1 d.body V1 V2 _ _ h1 hbody
+              exact ⟨FExpr.eval_agree V2 _ _ k _ h2 d.ret hret, h2⟩
+            · cases hk
+
+theorem TStmt.exec_agree (E : BEnv) (s : TStmt) (V V' : Valid) (G S : Gens) (h : Agree V G S)
+    (hk : s.ok E V = some V') :
+    (s.exec E G).1 = (s.exec (specEnv E.defs) S).1 ∧ Agree V' (s.exec E G).2 (s.exec (specEnv E.defs) S).2 := by
+  cases s with
+  | set g e =>
+    simp only [TStmt.ok] at hk
+    cases he : e.ok E V with
+    | none => simp [he] at hk
+    | some V1 =>
+      simp only [he, Option.map_some, Option.some.injEq] at hk
+      subst hk
+      obtain ⟨e1, h1⟩ := TExpr.eval_agree E e V V1 G S h he
+      simp only [TStmt.exec]
+      refine ⟨trivial, ?_⟩
+      rw [e1]
+      exact agree_write V1 _ _ g E.cur _ h1
+  | defn f d =>
+    simp only [TStmt.ok, Option.some.injEq] at hk
+    subst hk
+    exact ⟨rfl, h⟩
+  | expr e =>
+    simp only [TStmt.ok] at hk
+    obtain ⟨e1, h1⟩ := TExpr.eval_agree E e V V' G S h hk
+    simp only [TStmt.exec]
+    exact ⟨by rw [e1], h1⟩
+
+theorem execPiece_agree (E : BEnv) (l : List TStmt) :
+    ∀ (V V' : Valid) (G S : Gens) (v : Option Int), Agree V G S → okPiece E l V = some V' →
+      (execPiece E l G v).1 = (execPiece (specEnv E.defs) l S v).1 ∧
+      Agree V' (execPiece E l G v).2 (execPiece (specEnv E.defs) l S v).2 := by
+  induction l with
+  | nil =>
+    intro V V' G S v h hk
+    simp only [okPiece, Option.some.injEq] at hk
+    subst hk
+    exact ⟨rfl, h⟩
+  | cons s rest ih =>
+    intro V V' G S v h hk
+    simp only [okPiece] at hk
+    cases hs : s.ok E V with
+    | none => simp [hs] at hk
+    | some V1 =>
+      simp only [hs, Option.bind_some] at hk
+      obtain ⟨e1, h1⟩ := TStmt.exec_agree E s V V1 G S h hs
+      simp only [execPiece]
+      rw [e1]
+      exact ih V1 V' _ _ _ h1 hk
+
+theorem reload_agree (c : BCtl) (V : Valid) (G S : Gens) (h : Agree V G S) :
+    Agree (reloadValid c V) (reloadGens c G) S := by
+  intro g k hv
+  simp only [reloadValid, reloadGens] at hv ⊢
+  cases hs : c.started with
+  | false =>
+    simp only [hs, Bool.false_eq_true, ↓reduceIte] at hv ⊢
+    exact h g k hv
+  | true =>
+    simp only [hs, ↓reduceIte] at hv ⊢
+    by_cases hk : k = c.cur + 1
+    · simp only [hk, ↓reduceIte] at hv ⊢
+      exact h g c.cur hv
+    · simp only [hk, ↓reduceIte] at hv ⊢
+      exact h g k hv
+
+theorem bindRun_agree (h : List (List TStmt)) :
+    ∀ (c : BCtl) (V : Valid) (G S : Gens) (c' : BCtl) (V' : Valid), Agree V G S →
+      bindGuardFrom c V h = some (c', V') →
+      (bindRun c G h).1 = (bindSpec c.defs S h).1 ∧ (bindRun c G h).2.1 = c' ∧
+      Agree V' (bindRun c G h).2.2 (bindSpec c.defs S h).2.2 := by
+  induction h with
+  | nil =>
+    intro c V G S c' V' ha hg
+    simp only [bindGuardFrom, Option.some.injEq, Prod.mk.injEq] at hg
+    obtain ⟨h1, h2⟩ := hg
+    subst h1; subst h2
+    exact ⟨rfl, rfl, ha⟩
+  | cons l rest ih =>
+    intro c V G S c' V' ha hg
+    simp only [bindGuardFrom] at hg
+    cases hp : okPiece (c.next l).env l (reloadValid c V) with
+    | none => simp [hp] at hg
+    | some V1 =>
+      simp only [hp] at hg
+      obtain ⟨e1, h1⟩ := execPiece_agree (c.next l).env l _ V1 _ S none (reload_agree c V G S ha) hp
+      have hd : (c.next l).env.defs = addDefs c.defs l := rfl
+      rw [hd] at e1 h1
+      obtain ⟨e2, e3, h2⟩ := ih (c.next l) V1 _ _ c' V' h1 hg
+      have hd2 : (c.next l).defs = addDefs c.defs l := rfl
+      rw [hd2] at e2 h2
+      simp only [bindRun, bindSpec]
+      exact ⟨by rw [e1, e2], e3, h2⟩
 
 end Risor.C18
